@@ -1,5 +1,8 @@
 """Driving ``scheduler.suggest`` of real schedulers along environment histories (C06 / C16)."""
 import copy
+import random
+
+import numpy as np
 import pickle
 from datetime import datetime
 from typing import Any, Dict, List, Optional
@@ -127,6 +130,22 @@ def make_scheduler(kind: str, name: str, p2e, seed: int, mode="min"):
         return cs, HyperbandScheduler(cs, searcher="bayesopt", search_options={"debug_log": False, "num_init_random": 2},
                                       resource_attr=RES, max_resource_attr=MAXRES, grace_period=1, reduction_factor=3,
                                       type="stopping", **common)
+    if kind.startswith("hbt_"):
+        # every rung-system type with the random searcher (C16: dill round trips of the rung bookkeeping)
+        typ = kind[4:]
+        cs = make_space(name, maxres=3)
+        kw = dict(searcher="random", search_options={"debug_log": False}, resource_attr=RES, max_resource_attr=MAXRES,
+                  grace_period=1, reduction_factor=3 if typ != "pasha" else 2, type=typ, **common)
+        if typ == "cost_promotion":
+            kw["cost_attr"] = "cost"
+        if typ.startswith("rush"):
+            kw["rung_system_kwargs"] = {"num_threshold_candidates": 1}
+        return cs, HyperbandScheduler(cs, **kw)
+    if kind == "moasha":
+        from syne_tune.optimizer.schedulers.multiobjective import MOASHA
+        cs = make_space(name, maxres=3)
+        cs2 = {k: v for k, v in cs.items() if k != MAXRES}
+        return cs2, MOASHA(cs2, metrics=[METRIC, "m2"], mode=[mode, "max"], time_attr=RES, max_t=3, grace_period=1, reduction_factor=3)
     if kind.startswith("hb_"):
         cs = make_space(name, maxres=3)
         so = {"debug_log": False}
@@ -163,13 +182,23 @@ def make_scheduler(kind: str, name: str, p2e, seed: int, mode="min"):
     raise ValueError(kind)
 
 
-NOREPEAT = {"median": True, "hbdeep_bayesopt": True, "fifo_random_dup": False, "fifo_random": True, "fifo_grid": True, "fifo_bayesopt": True, "hb_random": True, "hb_random_promo": True,
+NOREPEAT = {"hbt_pasha": True, "hbt_rush_stopping": True, "hbt_rush_promotion": True, "hbt_cost_promotion": True, "moasha": False,
+            "median": True, "hbdeep_bayesopt": True, "fifo_random_dup": False, "fifo_random": True, "fifo_grid": True, "fifo_bayesopt": True, "hb_random": True, "hb_random_promo": True,
             "hb_bayesopt": True, "hb_hypertune": True, "synchb": True, "dehb": False, "pbt": False, "regevo": False}
 
 
 class Episode:
-    def __init__(self, kind, name, p2e_idx, seed, sched=None, cs=None, mode="min"):
+    def __init__(self, kind, name, p2e_idx, seed, sched=None, cs=None, mode="min", own_global_rng=False):
+        if kind == "moasha":
+            p2e_idx = []            # MOASHA takes no initial configurations (and has no default first one)
         self.kind, self.name, self.p2e_idx, self.seed = kind, name, p2e_idx, seed
+        # schedulers that draw from the process-wide generators (MOASHA samples with numpy's global state): every episode
+        # owns its copy of the two global generator states and installs it around each call, so that twins in one
+        # process do not feed on each other's draws
+        self.own_global_rng = own_global_rng      # (off for C11, where drawing from a global generator IS the defect)
+        _r = random.Random(seed * 7919 + 13)
+        self._py_state = _r.getstate()
+        self._np_state = np.random.RandomState(seed * 104729 + 7).get_state()
         self.sign = 1.0 if mode == "min" else -1.0       # C15: the "max" twin sees the negated metric
         if sched is None:
             p2e = None if p2e_idx is None else p2e_configs(name, p2e_idx)
@@ -235,7 +264,7 @@ class Episode:
         r = self.level[t]
         val = self.sign * (float((5 * t + 3 * r) % 7 + 0.125 * ((3 * t + r) % 5)) if v is None else float(v))
         try:
-            d = self.sched.on_trial_result(self.trials[t], {METRIC: val, RES: r})
+            d = self.sched.on_trial_result(self.trials[t], {METRIC: val, RES: r, "cost": float(r), "m2": float((3 * t + 5 * r) % 4)})
         except Exception as exc:
             return self._crash("on_trial_result", exc)
         self.ev.append({"a": "Result", "t": t, "r": r, "d": d})
@@ -263,12 +292,26 @@ class Episode:
         self.state[t] = "completed"
         r = self.level[t]
         try:
-            self.sched.on_trial_complete(self.trials[t], {METRIC: self.sign * float((5 * t + 3 * r) % 7 + 0.125 * ((3 * t + r) % 5)), RES: r})
+            self.sched.on_trial_complete(self.trials[t], {METRIC: self.sign * float((5 * t + 3 * r) % 7 + 0.125 * ((3 * t + r) % 5)), RES: r,
+                                                          "cost": float(r), "m2": float((3 * t + 5 * r) % 4)})
         except Exception as exc:
             return self._crash("on_trial_complete", exc)
         self.ev.append({"a": "Complete", "t": t})
 
     def step(self, h):
+        if not self.own_global_rng:
+            return self._step(h)
+        keep_py, keep_np = random.getstate(), np.random.get_state()
+        random.setstate(self._py_state)
+        np.random.set_state(self._np_state)
+        try:
+            self._step(h)
+        finally:
+            self._py_state, self._np_state = random.getstate(), np.random.get_state()
+            random.setstate(keep_py)
+            np.random.set_state(keep_np)
+
+    def _step(self, h):
         a = h["a"]
         if a == "Suggest":
             self.suggest()
